@@ -176,9 +176,9 @@ Definition run_op (st : cst) (line : list Z) : cst * list (list Z) :=
       if c_gmode st then
         (* grapheme mode: the width and segmentation model; the per-case width table is not used *)
         let '(t', rs', pend') := ghstep true (c_grid st) (clear_io (c_t st), c_rs st, c_pend st) (HFeed bs) in
-        (* span buffer: rows whose text would segment into other cells (KF-grapheme-merge); the mark stays *)
-        let xt := if c_grid st then 0
-                  else if negb (c_xt st =? 0) then c_xt st
+        (* rows whose text would segment into other cells than it was written as: the span buffer cannot hold them
+           (KF-grapheme-merge) and no rendering of either buffer can be read back cell by cell; the mark stays *)
+        let xt := if negb (c_xt st =? 0) then c_xt st
                   else if screen_reseg_ok (tmain t') && screen_reseg_ok (talt t') then 0 else trReseg in
         (mkCst t' pend' (c_tbl st) (c_grid st) (c_idx st + 1) [] true rs' xt,
          enc_obs_x (c_idx st) t' (zlen pend') xt ++ [enc_rs rs'])
